@@ -122,13 +122,16 @@ def ensure_facts(force=False, log=True):
         fcntl.flock(lk, fcntl.LOCK_EX)
         if os.path.exists(ok) and not force:
             return fdir
-        if os.path.exists(fdir):
-            shutil.rmtree(fdir)
+        # extract into a private directory and move the files into place one by one (atomic per file), so that a concurrent
+        # reader of the same tree's facts (another check running in parallel) never sees a missing or half-written file
+        final_dir = fdir
+        fdir = final_dir + f".tmp-{os.getpid()}"
+        shutil.rmtree(fdir, ignore_errors=True)
         os.makedirs(fdir)
         # reuse per-crate fact files with the same key
         todo = []
         olds = [d for d in sorted(glob.glob(os.path.join(CACHE, "facts", "*")), key=os.path.getmtime, reverse=True)
-                if d != fdir and os.path.exists(os.path.join(d, ".ok"))]
+                if d != fdir and ".tmp-" not in d and os.path.exists(os.path.join(d, ".ok"))]
         for pkg, crate in zip(PACKAGES, CRATES):
             got = False
             if not force:
@@ -171,13 +174,19 @@ def ensure_facts(force=False, log=True):
             raise AnalysisError(f"no fact file for crates {missing} (driver skipped?)")
         for pkg, crate in zip(PACKAGES, CRATES):
             open(os.path.join(fdir, crate + ".key"), "w").write(keys[pkg] + "\n")
+        os.makedirs(final_dir, exist_ok=True)
+        for fn_ in os.listdir(fdir):
+            os.replace(os.path.join(fdir, fn_), os.path.join(final_dir, fn_))
+        shutil.rmtree(fdir, ignore_errors=True)
+        fdir = final_dir
         open(ok, "w").write(f"{time.time()-t0:.1f}s analysed={','.join(todo)}\n")
         if log and todo:
             print(f"[mirfacts] done in {time.time()-t0:.1f}s", file=sys.stderr)
         # prune old fact dirs (keep 6 newest)
         ds = sorted(glob.glob(os.path.join(CACHE, "facts", "*")), key=os.path.getmtime, reverse=True)
         for d in ds[6:]:
-            shutil.rmtree(d, ignore_errors=True)
+            if time.time() - os.path.getmtime(d) > 3 * 3600:  # never a directory another running check may be reading
+                shutil.rmtree(d, ignore_errors=True)
     return fdir
 
 
